@@ -52,15 +52,42 @@ def rule_gcd(rep):
         ri, ro = pn[0], pn[1]
         tenv = TypeEnv(locals_={p["name"]: "int" for p in cfn["params"]})
         alg = Alg(tenv, sym_assumptions={p["name"]: {"integer": True, "positive": True} for p in cfn["params"]})
-        need = ["gcd", "fft_size_in", "fft_size_out", "fft_chunks"]
-        if any(n not in L for n in need):
-            rep.ob(R, t, False, "constructor locals %s not found" % [n for n in need if n not in L], loc(cfn))
+        # roles: (fft_size_in, fft_size_out) = the arguments of FftResampler::new; gcd = the gcd(..) call they contain;
+        # chunks = the factor multiplying the rate in fft_size_in
+        news = [x for x in walk(st.value or {}) if False]
+        fr_args = None
+        for ev in st.events:
+            if ev[0] in ("call", "let-opaque") and isinstance(ev[2], dict):
+                for x in walk(ev[2]):
+                    if x.get("k") == "call" and is_path(x["f"]) and x["f"]["p"].replace(" ", "").startswith("FftResampler::") and x["f"]["p"].endswith("new") and len(x["args"]) == 2:
+                        fr_args = x["args"]
+        if fr_args is None:
+            for nm_, v_ in L.items():
+                for x in walk(v_):
+                    if x.get("k") == "call" and is_path(x["f"]) and x["f"]["p"].replace(" ", "").startswith("FftResampler::") and x["f"]["p"].endswith("new") and len(x["args"]) == 2:
+                        fr_args = x["args"]
+        if fr_args is None:
+            rep.ob(R, t, False, "constructor does not build its FftResampler with FftResampler::new(fft_size_in, fft_size_out)", loc(cfn))
             continue
-        gv = alg.conv(L["gcd"])
+        fi_e, fo_e = fr_args
+        gcalls = [x for x in walk(fi_e) if x.get("k") == "call" and is_path(x["f"]) and x["f"]["p"].split("::")[-1] == "gcd"]
+        if not gcalls:
+            rep.ob(R, "%s/gcd" % t, False, "fft_size_in = %s does not involve gcd(rate_in, rate_out)" % show(fi_e)[:100], loc(cfn))
+            continue
+        gv = alg.conv(gcalls[0])
         gcd_ok = gv.func.__name__.endswith("gcd") and {str(x) for x in gv.args} == {ri, ro}
         rep.ob(R, "%s/gcd" % t, gcd_ok, "gcd := %s (must be gcd(%s, %s))" % (gv, ri, ro), loc(cfn))
         C = sp.Symbol("chunks", integer=True, positive=True)
-        ch = alg.conv(L["fft_chunks"])
+        fi_v, fo_v = alg.conv(fi_e), alg.conv(fo_e)
+        # fft_size_in = idiv(chunks * rate_in, gcd): chunks = numerator / rate_in
+        ch = None
+        if fi_v.func == idiv_f:
+            q = sp.cancel(fi_v.args[0] / alg.sym(ri))
+            if sp.fraction(sp.together(q))[1] == 1 and sp.simplify(fi_v.args[1] - gv) == 0:
+                ch = q
+        if ch is None:
+            rep.ob(R, "%s/identity" % t, False, "fft_size_in = %s is not (blocks · rate_in) / gcd" % fi_v, loc(cfn))
+            continue
         subs = {alg.sym(ri): g * a, alg.sym(ro): g * b}
 
         def exact(v):
@@ -69,8 +96,8 @@ def rule_gcd(rep):
             v = v.replace(idiv_f, lambda n, d: sp.cancel(n / d))
             v = sp.simplify(v)
             return v, sp.fraction(sp.together(v))[1] == 1
-        fi, ok1 = exact(alg.conv(L["fft_size_in"]))
-        fo, ok2 = exact(alg.conv(L["fft_size_out"]))
+        fi, ok1 = exact(fi_v)
+        fo, ok2 = exact(fo_v)
         ident = sp.simplify(fi * (g * b) - fo * (g * a)) == 0
         rep.ob(R, "%s/identity" % t, ok1 and ok2 and ident and sp.simplify(fi - C * a) == 0 and sp.simplify(fo - C * b) == 0,
                "with rate_in = g·a, rate_out = g·b: fft_size_in = %s, fft_size_out = %s ; required: chunks·a, chunks·b (both divisions exact) so that in·rate_out == out·rate_in" % (fi, fo), loc(cfn),
@@ -89,8 +116,12 @@ def rule_gcd(rep):
     m = fftmodel.extract(facts, "FftFixedInOut")
     rin, rout = fftmodel.ret_tuple(m)
     cfn, cst, inits = ctor_state(facts, "FftFixedInOut")
-    ok = is_self_field(rin) and is_self_field(rout) and "fft_size_in" in cst.locals and "fft_size_out" in cst.locals \
-        and nbit(inits.get(rin["name"])) == nbit(cst.locals["fft_size_in"]) and nbit(inits.get(rout["name"])) == nbit(cst.locals["fft_size_out"])
+    fr = None
+    for x in walk(inits.get("resampler") or {}):
+        if x.get("k") == "call" and is_path(x["f"]) and x["f"]["p"].endswith("new") and len(x["args"]) == 2:
+            fr = x["args"]
+    ok = is_self_field(rin) and is_self_field(rout) and fr is not None \
+        and nbit(inits.get(rin["name"])) == nbit(fr[0]) and nbit(inits.get(rout["name"])) == nbit(fr[1])
     rep.ob(R, "FftFixedInOut/returns-block-sizes", ok, "process_into_buffer returns (%s, %s); those fields must be initialised from the constructor's fft_size_in / fft_size_out" % (show(rin), show(rout)), loc(m["fn"]))
     # one unit per active channel per call
     units = [u for l in m["loops"] for u in l["units"]]
